@@ -396,6 +396,11 @@ func runC07(c *Ctx) {
 				c07FirstRequestsTogether(c, i)
 			}
 		}
+		for i := 0; i < c.Pick(4, 200); i++ {
+			if c.Mine(i) {
+				c07ReconnectWhoseUseIsRefused(c, i)
+			}
+		}
 	}
 	var _ = mon.Event{}
 }
@@ -797,5 +802,71 @@ func c07FirstRequestsTogether(c *Ctx, idx int) {
 	if len(bad) > 0 {
 		r.Violate(mon.Violation{Signature: fmt.Sprintf("C07/first-requests-together/%s", []string{"compression", "version", "keyspace"}[idx%3]),
 			Detail: fmt.Sprintf("clients that differ in %s only sent their first requests at the same moment on a proxy without sessions: %s", []string{"compression", "protocol version", "keyspace"}[idx%3], strings.Join(bad, "; ")), Scenario: scenario})
+	}
+}
+
+// c07ReconnectWhoseUseIsRefused: a client is in keyspace ks1; the backend connections of its session are lost, and the node
+// takes 150 ms over the USE of every re-connect and then refuses it (overloaded) a few times before it accepts one.  Requests
+// the client sends meanwhile may fail (there is no usable connection) - but whatever is executed is executed in ks1: a
+// connection is not handed requests before its keyspace is set.
+func c07ReconnectWhoseUseIsRefused(c *Ctx, idx int) {
+	r := c.R
+	conns := 1 + idx%2
+	comp := []string{"", "lz4"}[(idx/2)%2]
+	scenario := map[string]interface{}{"kind": "c07-reconnect-whose-use-is-refused", "idx": idx}
+	c.Step("c07 reconnect whose USE is refused idx=%d conns=%d %q", idx, conns, comp)
+	bed, err := px.NewBed(px.BedConfig{Hosts: 1, NumConns: conns, Keyspaces: c07Keyspaces, KeepBodies: true, ReconnectBase: 5 * time.Millisecond, ReconnectMax: 20 * time.Millisecond})
+	if err != nil {
+		r.Inconc("c07 reconnect/USE refused: cannot start bed: " + err.Error())
+		return
+	}
+	defer bed.Close()
+	cl, err := bed.ReadyClient(primitive.ProtocolVersion4, comp)
+	if err != nil {
+		r.Inconc("c07 reconnect/USE refused: handshake: " + err.Error())
+		return
+	}
+	defer cl.Close()
+	opts := &message.QueryOptions{Consistency: primitive.ConsistencyLevelOne}
+	if f, err := cl.Call(1, &message.Query{Query: "USE ks1", Options: opts}, 10*time.Second); err != nil || f.OpCode != primitive.OpCodeResult {
+		r.Inconc("c07 reconnect/USE refused: USE ks1 failed")
+		return
+	}
+	bed.Cluster.SetSlowUse("ks1", 150*time.Millisecond)
+	var errs []message.Error
+	for i := 0; i < 3*conns; i++ {
+		errs = append(errs, &message.Overloaded{ErrorMessage: "node is overloaded"})
+	}
+	bed.Cluster.SetUseErrors("ks1", errs)
+	bed.Cluster.KillPooled(idx%3 == 0, 1)
+	executed, failed := 0, 0
+	for k := 0; k < 90; k++ {
+		tok := NewTok()
+		f, err := cl.CallF(BuildRequest(primitive.ProtocolVersion4, int16(10+k), KQuery, true, tok, primitive.ConsistencyLevelOne), 10*time.Second)
+		r.Eval(1)
+		if err != nil || f == nil {
+			r.Violate(mon.Violation{Signature: "C07/no-reply/during-reconnects-whose-use-is-refused", Detail: "a request sent while the session's connections were being re-established got no reply", Scenario: scenario})
+			return
+		}
+		ri := DecodeReply(comp, f)
+		if ri.Kind == "Rows" && ri.HasEcho {
+			executed++
+			r.Obs("echoes_checked", 1)
+			if ri.Echo.Ks != "ks1" {
+				r.Violate(mon.Violation{Signature: "C07/wrong-keyspace/on-a-reconnected-connection-whose-use-is-unanswered", Detail: fmt.Sprintf("the client is in keyspace ks1; its session's backend connections were lost and the node takes 150 ms over the USE of each re-connect before refusing it: request %d sent meanwhile was executed on a backend connection in keyspace %q", k, ri.Echo.Ks), Scenario: scenario})
+				return
+			}
+		} else {
+			failed++
+		}
+		time.Sleep(10 * time.Millisecond)
+	}
+	bed.Cluster.SetSlowUse("ks1", 0)
+	bed.Cluster.SetUseErrors("ks1", nil)
+	r.Obs("reconnect_use_refused_cases", 1)
+	r.Obs("reconnect_use_refused_requests_executed", executed)
+	r.Obs("reconnect_use_refused_requests_failed", failed)
+	if failed > 0 {
+		r.NonTrivial(fmt.Sprintf("reconnect-whose-use-is-refused/c%d/%s", conns, comp))
 	}
 }
